@@ -92,10 +92,15 @@ def drop_run_root():
 # ---------------------------------------------------------------------------
 # virtualised stat of cache files as seen by treadmill.appcfg
 
-def ident(key, gen, salt):
-    """Harness-assigned (inode, ctime) of generation `gen` of instance `key`."""
+def ident(key, gen, salt, ino_reuse=False):
+    """Harness-assigned (inode, ctime) of generation `gen` of instance `key`.
+    All ctimes of one run fall into the same second (an instance evicted and
+    placed again at once).  ino_reuse: the new cache file gets the inode its
+    predecessor just freed (what ext4 does for unlink + create), so that the
+    generations differ in the sub-second part of the ctime only."""
     n = salt * 16 + KEYS.index(key) * 4 + gen
-    return 500000 + 7919 * n, 1600000000 + n * 0.000977
+    ino = 500000 + 7919 * ((n - gen) if ino_reuse else n)
+    return ino, 1600000000 + n * 0.000977
 
 
 class _Stat:
@@ -293,6 +298,25 @@ def _configure_body(tm_env, event):
     return container_dir
 
 
+def _mgr_state(mgr):
+    """Every attribute of the manager object except its environment: the
+    unchanged manager keeps only `_is_active`, but a change may add memos;
+    they belong to the checkpoint and to the canonical key."""
+    names = set(getattr(mgr, '__dict__', {}))
+    for cls in type(mgr).__mro__:
+        slots = cls.__dict__.get('__slots__', ())
+        names.update([slots] if isinstance(slots, str) else slots)
+    out = {}
+    for k in sorted(names):
+        if k in ('tm_env', '__dict__', '__weakref__'):
+            continue
+        try:
+            out[k] = getattr(mgr, k)
+        except AttributeError:
+            pass
+    return out
+
+
 class CleanupPaused(BaseException):
     """Cleanup.invoke stops between runtime.finish() and fs.rm_safe(link)."""
 
@@ -302,8 +326,12 @@ class _RuntimeStandin:
         self.container_dir = container_dir
 
     def finish(self):
-        shutil.rmtree(self.container_dir)
         w = _CUR
+        if w is not None and w.fail_finish:
+            # finish() fails half-way (umount / lvremove error): the
+            # container directory is still there
+            raise OSError(16, 'Device or resource busy', self.container_dir)
+        shutil.rmtree(self.container_dir)
         if w is not None and w.pause_finish:
             # the cleanup process is descheduled right after finish():
             # Cleanup.invoke has not yet removed its link
@@ -481,6 +509,7 @@ class NodeWorld:
         # aborted or ran out of memory (survives the removal of apps/<c>)
         self.finished_gens = set()
         self.pause_finish = False
+        self.fail_finish = False
         self.evno = 0
         self.late_seen = False       # a notification was delivered late
         self.fifo = []               # [(kind, basename)] dirwatch queue
@@ -509,7 +538,8 @@ class NodeWorld:
         self.tm_env = None
         self.new_manager()
         if token is not None:
-            self.mgr._is_active = token['active']  # pylint: disable=W0212
+            for k, v in copy.deepcopy(token['mgr']).items():
+                setattr(self.mgr, k, v)
         self.cleaner = tm_cleanup.Cleanup(self.tm_env)
         self.monitor = tm_monitor.MonitorContainerCleanup(self.tm_env, {})
 
@@ -529,7 +559,7 @@ class NodeWorld:
         return {'tree': tree,
                 'fields': {k: copy.deepcopy(getattr(self, k))
                            for k in self._SAVED},
-                'active': self.mgr._is_active}  # pylint: disable=W0212
+                'mgr': copy.deepcopy(_mgr_state(self.mgr))}
 
     # -- processes ----------------------------------------------------------
     def new_manager(self):
@@ -698,9 +728,12 @@ class NodeWorld:
                     tgt in self.finished_gens:
                 self.stats['restart_of_finished_checked'] += 1
                 site = self.site_of('running', name)[1]
-                if tgt not in pre.apps:
-                    # finish() had removed the directory: the same unique
-                    # name has been configured again
+                if not (flags and flags & set(FINISH_FLAGS)):
+                    # finish() had removed the directory (the finish flags
+                    # live in it): the same unique name has been configured
+                    # again - also when a manager that died between
+                    # creating the directory and linking it had already
+                    # re-created it empty (thorough tier, crash points)
                     site += ' [after its cleanup completed]'
                 self.flag('finished-container-restarted', site,
                           {'container': str(self.cid(tgt)),
@@ -1031,7 +1064,8 @@ class NodeWorld:
             name = INSTANCE[key]
             path = os.path.join(self.cache_dir, name)
             self.bad[(key, gen)] = bool(bad)
-            ino, ctime = ident(key, gen, self.salt)
+            ino, ctime = ident(key, gen, self.salt,
+                               self.cfg.get('ino_reuse'))
             # EventMgr._cache: write_safe = temp file + rename
             tmp = os.path.join(self.cache_dir, '.%s-tmp' % name)
             with io.open(tmp, 'w') as f:
@@ -1040,7 +1074,7 @@ class NodeWorld:
             os.rename(tmp, path)
             self.cache_ident[path] = (ino, ctime)
             self.cache[key] = gen
-            self.cname[appcfg.eventfile_unique_name(path)] = (key, gen)
+            self._name_generation(path, key, gen)
             self._enq(('created', name))
             self.after_change(ev[3])
         elif kind == 'rep':
@@ -1058,9 +1092,10 @@ class NodeWorld:
                 json.dump({'task': name.split('#')[1], 'gen': gen,
                            'bad': False}, f)
             os.rename(tmp, path)
-            self.cache_ident[path] = ident(key, gen, self.salt)
+            self.cache_ident[path] = ident(key, gen, self.salt,
+                                            self.cfg.get('ino_reuse'))
             self.cache[key] = gen
-            self.cname[appcfg.eventfile_unique_name(path)] = (key, gen)
+            self._name_generation(path, key, gen)
             self._enq(('created', name))
             self.after_change(ev[2])
         elif kind == 'del':
@@ -1140,6 +1175,18 @@ class NodeWorld:
                 self.stats['cleanups_paused_after_finish'] += 1
             else:
                 self.stats['cleanups_completed'] += 1
+        elif kind == 'clf':
+            # Cleanup.invoke(name) whose runtime.finish() fails while the
+            # container directory still exists: the cleanup app dies (s6
+            # restarts it later), nothing may be unlinked
+            name = self.real_link_name(ev[1:])
+            self.fail_finish = True
+            try:
+                self._call('Cleanup.invoke', self.cleaner.invoke, 'linux',
+                           name)
+            finally:
+                self.fail_finish = False
+            self.stats['cleanups_failed_in_finish'] += 1
         elif kind == 'clu':
             # the tail of the in-flight Cleanup.invoke: fs.rm_safe(link) by
             # NAME, whatever the link references by now
@@ -1153,6 +1200,29 @@ class NodeWorld:
         self.observe()
         self.check_quiescent()
         self.stats['events'] += 1
+
+    def _name_generation(self, path, key, gen):
+        """Record the container name the real code derives for a new cache
+        file.  The harness hands out (inode, ctime) pairs that differ between
+        generations, so on the unchanged tree the names differ; if the code
+        under test maps a new generation to the name of an older one whose
+        container still sits under apps/, that directory is about to be (or
+        already is) referenced as the old container (running or cleanup
+        link) and as the new one: reported, and the state is terminal.  The
+        same holds while a (dangling) link of the older one is still there."""
+        uname = appcfg.eventfile_unique_name(path)
+        old = self.cname.get(uname)
+        if old is not None and old != (key, gen):
+            snap = self.snapshot()
+            if uname in snap.apps or uname in snap.targets():
+                self.flag('new-generation-shares-container-with-older-one',
+                          'appcfg.gen_uniqueid',
+                          {'older': str(old), 'newer': str((key, gen)),
+                           'links_to_it': sorted(
+                               str(l) for l in snap.targets().get(uname, ())),
+                           'state': self.describe(snap)})
+                return
+        self.cname[uname] = (key, gen)
 
     def tomb_one(self):
         key, sig = self.tombs.pop(0)
@@ -1219,6 +1289,9 @@ class NodeWorld:
             ln = self.lname(name)
             if isinstance(ln, tuple) and ln not in self.inflight:
                 menu.append(('cln',) + ln)
+                if cfg.get('fail_cln') and \
+                        snap.cleanup[name] in snap.apps:
+                    menu.append(('clf',) + ln)
         for ln in self.inflight:
             menu.append(('clu',) + ln)
         if cfg.get('boot'):
@@ -1248,6 +1321,10 @@ class NodeWorld:
             tuple(self.fifo), self.late_seen,
             tuple(self.tombs), tuple(self.inflight),
             self.mgr._is_active,  # pylint: disable=protected-access
+            # anything else the manager object remembers (nothing on the
+            # unchanged tree)
+            repr(sorted((k, v) for k, v in _mgr_state(self.mgr).items()
+                        if k != '_is_active')).replace(self.root, '<root>'),
             s.other,
             # directory order of the cache = order in which _synchronize
             # configures new entries (visible through the crash points)
